@@ -603,7 +603,56 @@ def erronly_cases():
     return cases
 
 
+def chain_cases():
+    """(C06/C07) Enumerated: a chain of tasks in which every handler (re-)initialises its successor (IV_TASK_INIT on a fresh or re-used
+    struct) and registers it, while a timer that stops the chain (or calls iv_quit) becomes due: a registration made from inside a task
+    handler waits for the next round whatever the history of the struct, so the timer is served and iv_main returns."""
+    cases = []
+    for m in METHODS:
+        pre = ([f"exclude {m}"] if m else []) + ["cfg waitlimit=40 cblimit=160", "obj task k1", "obj task k2", "obj task k3", "obj timer t0", "obj fd f0 sock", "on f0.in * : rd f0"]
+        for how in ("init", "free-init"):
+            prep = (lambda k: f"init {k}") if how == "init" else (lambda k: f"free {k} ; init {k}")
+            for stop in ("unreg", "quit"):
+                end = "?kunreg k1 ; ?kunreg k2 ; ?kunreg k3 ; ?unreg f0" if stop == "unreg" else "quit"
+                body = [f"on k1 * : {prep('k2')} ; kreg k2", f"on k2 * : {prep('k3')} ; kreg k3", f"on k3 * : {prep('k1')} ; kreg k1", f"on t0 1 : {end}",
+                        "do kreg k1 ; reg f0 100 ; trel t0 4000", "at 1 : wr f0 1", "main"]
+                cases.append((f"chain-{METHOD_NAME[m]}-{how}-{stop}", pre + body))
+        # a task that re-initialises ITSELF before registering again
+        cases.append((f"chain-{METHOD_NAME[m]}-self-init", pre + ["on k1 * : init k1 ; kreg k1", "on t0 1 : ?kunreg k1 ; ?unreg f0", "do kreg k1 ; reg f0 100 ; trel t0 4000", "at 1 : wr f0 1", "main"]))
+    return cases
+
+
+def alias_cases():
+    """(C02/C15) Enumerated: a SECOND struct iv_fd for a descriptor number that a registered object already owns is offered with
+    iv_fd_register_try (the epoll methods' kernel refuses a second entry, poll/ppoll give it a slot of its own): whatever the
+    outcome, the first object keeps being served; afterwards the second is released (if it was accepted) and the first must still be
+    served."""
+    cases = []
+    for m in METHODS:
+        pre = ([f"exclude {m}"] if m else []) + ["cfg waitlimit=14 cblimit=60", "obj fd f0 sock", "obj fd f5 =f0", "obj fd f1 sock", "obj timer t0", "obj timer t1", "obj timer t9",
+                                              "on t9 1 : ?unreg f0 ; ?unreg f5 ; ?unreg f1", "on f1.in * : rd f1"]
+        variants = {
+            # the first object reads, the second would like to write
+            "in-then-out": ["on f0.in * : rd f0", "on f5.out 1 : ?setout f5 0", "on t0 1 : try f5 010 ; wr f0 1", "on t1 1 : ?unreg f5 ; wr f0 1",
+                            "do reg f0 100 ; reg f1 100 ; wr f0 1 ; trel t0 1000 ; trel t1 900000 ; trel t9 50000000", "main"],
+            # the first object writes (once), the second would like to read
+            "out-then-in": ["on f0.out 1 : setout f0 0", "on f0.in * : rd f0", "on f5.in * : rd f5", "on t0 1 : try f5 100 ; setin f0 1 ; wr f0 1", "on t1 1 : ?unreg f5 ; wr f0 1",
+                            "do reg f0 010 ; reg f1 100 ; trel t0 1000 ; trel t1 900000 ; trel t9 50000000", "main"],
+            # offered from inside the first object's own handler, while it is being dispatched
+            "from-own-handler": ["on f0.in 1 : rd f0 ; try f5 010", "on f0.in * : rd f0", "on f5.out 1 : ?setout f5 0", "on t1 1 : ?unreg f5 ; wr f0 1",
+                                 "do reg f0 100 ; reg f1 100 ; wr f0 1 ; trel t1 900000 ; trel t9 50000000", "at 1 : wr f0 1", "main"],
+            # offered without any handler, a handler set later
+            "no-handlers-then-out": ["on f0.in * : rd f0", "on f5.out 1 : ?setout f5 0", "on t0 1 : try f5 000 ; wr f0 1", "on t1 1 : ?setout f5 1 ; wr f0 1",
+                                     "do reg f0 100 ; reg f1 100 ; trel t0 1000 ; trel t1 900000 ; trel t9 50000000", "main"],
+        }
+        for name, body in variants.items():
+            cases.append((f"alias-{METHOD_NAME[m]}-{name}", pre + body))
+    return cases
+
+
 ENUM_RULE = ("; plus the ENUMERATED families 'erronly' (24 scenarios: a descriptor whose only handler is the error handler, reached and left by every "
              "transition, hang-up before/after, 4 methods) and 'quit' (104 scenarios: iv_quit outside iv_main; iv_quit from a descriptor handler while "
              "other descriptors of the same iteration are undelivered, from a task while later and deferred tasks of the round are pending, from an iv_event handler while other posted events of the batch are undelivered, and from an iv_event_raw handler while other raw objects posted in the same batch are undelivered, then "
-             "iv_main re-entered: nothing due may be lost across the return; 4 methods)")
+             "iv_main re-entered: nothing due may be lost across the return; 4 methods) and 'alias' (16 scenarios: a second struct iv_fd offered with "
+             "iv_fd_register_try for a descriptor number another registered object owns, accepted or refused depending on the method: the first object keeps being served) and 'chain' (20 scenarios: every task handler "
+             "re-initialises and registers its successor while a timer that ends the chain becomes due)")
